@@ -207,7 +207,7 @@ def evaluate(case) -> Verdict:
         v.nontrivial = res != "" and not res.startswith("parse")
         v.labels.append("template:" + res)
     elif kind == "src":
-        env = _env(case["mode"], extra=case.get("extra", True))
+        env = _env(case["mode"], partials=case.get("partials"), extra=case.get("extra", True))
         res = _render_both(v, env, case["src"], gd.decode(case.get("data") or {}), "both")
         v.nontrivial = res != "" and not res.startswith("parse")
         v.labels.append("source:" + res)
@@ -342,6 +342,68 @@ PUMPS = [
 ]
 
 
+def _nest(o: str, c: str, n: int, body: str = "x") -> str:
+    return o * n + body + c * n
+
+
+AFTERMATH_PARTIALS = {
+    "p": "[{{ p }}{{ q }}{{ x }}{{ forloop.index }}]",
+    "brk": "a{% break %}b",
+    "cont": "a{% continue %}b",
+    "self": "s{% include 'self' %}",
+    "rself": "r{% render 'rself' %}",
+    "loopy": "{% for a in (1..2) %}{% include 'brk' %}{% endfor %}",
+}
+# constructs that fail part-way through and that lax and warn mode carry on after
+PROVOKE = [
+    _nest("{% for a in (1..2) %}", "{% endfor %}", 27),
+    _nest("{% for a in (1..2) %}", "{% endfor %}", 28),
+    _nest("{% for a in (1..1) %}", "{% endfor %}", 40),
+    _nest("{% tablerow a in (1..2) %}", "{% endtablerow %}", 28),
+    _nest("{% for a in (1..2) %}{% tablerow b in (1..1) %}", "{% endtablerow %}{% endfor %}", 14),
+    _nest("{% with a: 1 %}", "{% endwith %}", 29),
+    _nest("{% with a: 1 %}", "{% endwith %}", 27, "{% for a in (1..2) %}{% for b in (1..2) %}x{% endfor %}{% endfor %}"),
+    _nest("{% capture c %}{% for a in (1..2) %}", "{% endfor %}{% endcapture %}", 28),
+    "{% for a in (1..3) %}{{ 1 | divided_by: 0 }}{% endfor %}",
+    "{% for a in (1..3) %}{% for b in items limit: 'x' %}{% endfor %}{% endfor %}",
+    "{% for a in (1..3) %}{% include 'missing' %}{% endfor %}",
+    "{% for a in (1..3) %}{% render 'missing' %}{% endfor %}",
+    "{% for a in (1..3) %}{% include 'self' %}{% endfor %}",
+    "{% for a in (1..3) %}{% render 'rself' %}{% endfor %}",
+    "{% tablerow a in (1..3) %}{{ a | nosuch }}{{ 1 | divided_by: 0 }}{% endtablerow %}",
+    "{% macro m %}{% for a in (1..2) %}{% call m %}{% endfor %}{% endmacro %}{% call m %}",
+    "{% for a in (1..3) %}{% include 'brk' %}{{ 1 | divided_by: 0 }}{% endfor %}",
+    "{% for a in (1..2) %}{% capture c %}{{ a | divided_by: 0 }}{% endcapture %}{% endfor %}",
+    "{% for a in (1..2) %}{% nosuchtag %}{% endfor %}",
+    "{% for a in nosuch.x | bad %}{% endfor %}",
+    "{% include 'loopy' %}{% for a in (1..2) %}{% include 'self' %}{% endfor %}",
+]
+# constructs whose behaviour depends on loop, scope or buffer state that an abandoned construct may have left behind
+AFTER = [
+    "{% break %}", "{% continue %}", "{% liquid break %}", "{% if true %}{% break %}{% endif %}",
+    "{% unless false %}{% continue %}{% endunless %}", "{% case 1 %}{% when 1 %}{% break %}{% endcase %}",
+    "{% capture x %}{% continue %}{% endcapture %}", "{% with a: 1 %}{% break %}{% endwith %}",
+    "{% include 'brk' %}", "{% include 'cont' %}", "{% render 'brk' %}", "{% include 'loopy' %}",
+    "{% for j in (1..2) %}{{ forloop.parentloop.index }}{{ forloop.parentloop.parentloop.length }}{% endfor %}",
+    "{{ forloop.index }}{{ tablerowloop.col }}", "{% cycle 1, 2 %}", "{% ifchanged %}x{% endifchanged %}",
+    "{% increment a %}{% decrement a %}", "{% tablerow j in (1..2) %}{% break %}{% endtablerow %}",
+    "{% else %}", "{% endfor %}", "{% endtablerow %}", "{% call m %}", "{{ block.super }}",
+    "{% for j in (1..2) %}{% include 'cont' %}{% endfor %}", "{% include 'p' for items %}",
+]
+
+
+def _aftermath(ctx: core.Ctx, shard: int, nshards: int) -> None:
+    """Every tolerated failure followed by every state-sensitive construct, in the three modes."""
+    i = 0
+    for pro in PROVOKE:
+        for aft in AFTER:
+            for mode in MODES:
+                i += 1
+                if i % nshards == shard:
+                    ctx.run({"kind": "src", "src": pro + "|" + aft + "|" + aft, "mode": mode, "partials": AFTERMATH_PARTIALS,
+                             "data": {"items": [1, 2, 3], "a": 1}})
+
+
 def _pumps(ctx: core.Ctx, shard: int, nshards: int, sizes: list) -> None:
     """Deeply nested / very long expressions: recursion in the expression parsers."""
     i = 0
@@ -357,6 +419,7 @@ def _campaign(ctx: core.Ctx, tier: str, shard: int, nshards: int) -> None:
     quick = tier == "quick"
     seed = core.sub_seed(ctx.seed, shard)
     _pumps(ctx, shard, nshards, [200, 1500, 4000] if quick else [200, 1000, 1500, 4000, 20000])
+    _aftermath(ctx, shard, nshards)
     if quick:
         core.drive(filter_cells(), ctx.run, n=14000 // nshards, seed=seed)
         core.drive(tag_cells(), ctx.run, n=8000 // nshards, seed=seed + 1)
